@@ -165,7 +165,7 @@ class Interp(Exec):
             return self.const({"True": True, "False": False, "None": None}[name])
         if name in self.schema.classes:
             return VClass(name)
-        if name in BUILTIN_CLASSES:
+        if name in BUILTIN_CLASSES or name in ENUMS:
             return VClass(name)
         raise Unsupported(f"unknown name {name}")
 
@@ -728,7 +728,7 @@ class Interp(Exec):
             i = self.as_int(idx)
             n = z3.Length(obj.t)
             self.oblige(st, "indexerror", z3.And(i < n, i >= -n), where=self.where(node, st))
-            i2 = z3.simplify(z3.If(i >= 0, i, n + i))
+            i2 = self.norm_index(st, i, n)
             return VStr(z3.SubString(obj.t, i2, 1))
         if isinstance(obj, VFunc) and obj.kind == "objdict":
             return self.objdict_get(st, obj.recv, idx, node)
@@ -772,7 +772,7 @@ class Interp(Exec):
                 i = self.as_int(idx)
                 n = z3.Length(h.t)
                 self.oblige(st, "indexerror", z3.And(i < n, i >= -n), where=self.where(node, st))
-                i2 = z3.simplify(z3.If(i >= 0, i, n + i))
+                i2 = self.norm_index(st, i, n)
                 return self.lift(h.t[i2], h.elem_ty)
             if isinstance(h, HList):
                 ok, i = pyconst(idx)
@@ -796,11 +796,32 @@ class Interp(Exec):
             if isinstance(h, HListC):
                 i = self.as_int(idx)
                 self.oblige(st, "indexerror", z3.And(i < h.length, i >= -h.length), where=self.where(node, st))
-                i2 = z3.simplify(z3.If(i >= 0, i, h.length + i))
+                i2 = self.norm_index(st, i, h.length)
                 return self.load(st, VRef(obj.root, obj.path + (("k", VInt(i2)),)))
         if isinstance(obj, VFam):
+            ok, i0 = pyconst(idx)
+            if ok and i0 == 0:
+                # first element of a comprehension-shaped list: some element (the first in iteration order)
+                self.oblige(st, "indexerror", self.exists(obj.binders, obj.guard), where=self.where(node, st))
+                wit = [self.fresh(st, "first", b.sort()) for b in obj.binders]
+                pairs = list(zip(obj.binders, wit))
+                st.pc.append(z3.substitute(obj.guard, *pairs))
+                if obj.seqsrc is None:
+                    note = f"element [0] of a list built from an unordered collection at {self.where(node, st)}: any element (order not modelled)"
+                    if note not in self.ctx.notes:
+                        self.ctx.notes.append(note)
+                return subst(obj.elem, pairs)
             raise Unsupported("subscript of a comprehension value")
         raise Unsupported(f"subscript of {obj!r}")
+
+    def norm_index(self, st, i, n):
+        """Python index normalisation; indices known to be non-negative stay as they are."""
+        si = z3.simplify(i)
+        if z3.is_int_value(si):
+            return si if si.as_long() >= 0 else z3.simplify(n + si)
+        if self.implied(st, i >= 0):
+            return i
+        return z3.simplify(z3.If(i >= 0, i, n + i))
 
     def log_read(self, st, ref, idx):
         if st.rec:
